@@ -15,7 +15,7 @@ Spec == Init /\ [][Next]_vars
 Done == phase = "done"
 LinksSafe == Done => SafeLink(SrcPieces(b)) /\ SafeLink(PkgPieces(b)) /\ Sanitised(SrcPieces(b)) /\ Sanitised(PkgPieces(b))
 (* no source link at all only when there is nothing to link to *)
-RepoShape(r) == r \in {"github3", "github3ver", "github3verodd", "github3pseudo", "golangx", "golangxver", "vendorgithub"}
+RepoShape(r) == r \in {"github3", "github3ver", "github3verodd", "github3pseudo", "github3atfile", "golangx", "golangxver", "vendorgithub"}
 LinkPresent == Done => (SrcPieces(b) = <<>> <=> (b.loc # "Stdlib" /\ ~RepoShape(b.rel) /\ ~b.local /\ ~b.remote))
 Prefix(p) == IF p = <<>> THEN "" ELSE p[1].text
 Emit == Done => PrintT("CASE " \o ToJson([b |-> b, src |-> Prefix(SrcPieces(b)), pkg |-> Prefix(PkgPieces(b)),
